@@ -8,6 +8,8 @@ HERE = os.path.dirname(os.path.dirname(os.path.abspath(__file__)))
 args = sys.argv[1:]
 tests = "--tests" in args
 if tests: args.remove("--tests")
+harvest = "--harvest" in args   # keep up to 2 shrunk killing inputs per (patch, property) as replay/<prop>/regress-*.json
+if harvest: args.remove("--harvest")
 props_override = None
 if "--props" in args:
     i = args.index("--props"); props_override = args[i + 1].split(","); del args[i:i + 2]
@@ -34,6 +36,16 @@ for item in args:
             c = subprocess.run(["/venv/bin/python", "-m", "hxv", p, "--tier", "quick"], cwd=HERE, env=env, capture_output=True, text=True)
             sigs = [l.split("signature=")[1].split(" seen=")[0] for l in c.stdout.splitlines() if "signature=" in l]
             verdict = {0: "MISSED", 1: "caught", 2: "HARNESS-ERROR"}.get(c.returncode, str(c.returncode))
+            if harvest and c.returncode == 1:
+                rdir = os.path.join(out, "replay", p)
+                tag = os.path.basename(key.rstrip("/")).replace(".patch", "")[:40]
+                files = sorted(os.listdir(rdir), key=lambda f: os.path.getsize(os.path.join(rdir, f)))[:2] if os.path.isdir(rdir) else []
+                os.makedirs(os.path.join(HERE, "replay", p), exist_ok=True)
+                for n, f in enumerate(files):
+                    doc = json.load(open(os.path.join(rdir, f)))
+                    doc["killed"] = key
+                    json.dump(doc, open(os.path.join(HERE, "replay", p, f"regress-{tag}-{n}.json"), "w"), indent=1)
+            shutil.rmtree(out, ignore_errors=True)
             print(f"{key}: {p} {verdict} {('suite: ' + suite) if suite else ''} {sigs[:3]}", flush=True)
             rows.append((key, p, verdict))
     finally:
